@@ -20,6 +20,8 @@ pub struct EnumCfg {
   pub write_decl: bool,
   pub panic_op: bool,
   pub guards: bool,
+  /// guard values offered (subset of {0,1,2})
+  pub guard_vals: Vec<u8>,
   /// allow a task to require itself / any task (cycles)
   pub self_req: bool,
 }
@@ -29,12 +31,12 @@ impl EnumCfg {
     EnumCfg {
       n_tasks, n_res, max_total, max_per_task: max_total,
       ocs: vec![OC::Equals], read_rcs: vec![RC::Exact], write_rcs: vec![RC::Exact], srcs: vec![Src::Acc, Src::One],
-      write_decl: false, panic_op: false, guards: true, self_req: true,
+      write_decl: false, panic_op: false, guards: true, guard_vals: vec![0, 1, 2], self_req: true,
     }
   }
   pub fn describe(&self) -> String {
     format!("N={} R={} K<={} ocs={:?} read_rcs={:?} write_rcs={:?} srcs={:?} write_decl={} panic={} guards={}",
-      self.n_tasks, self.n_res, self.max_total, self.ocs, self.read_rcs, self.write_rcs, self.srcs, self.write_decl, self.panic_op, self.guards)
+      self.n_tasks, self.n_res, self.max_total, self.ocs, self.read_rcs, self.write_rcs, self.srcs, self.write_decl, self.panic_op, if self.guards { format!("{:?}", self.guard_vals) } else { "none".into() })
   }
 }
 
@@ -82,7 +84,7 @@ fn bodies(cfg: &EnumCfg, t: Tid, len: usize) -> Vec<Vec<Stmt>> {
       cur.pop();
       if cfg.guards && possible.count_ones() > 1 {
         for g in 0..3u8 {
-          if possible & (1 << g) == 0 { continue; }
+          if possible & (1 << g) == 0 || !cfg.guard_vals.contains(&g) { continue; }
           let after = (possible & !(1 << g)) | effect(op, 1 << g);
           cur.push(Stmt { guard: Some(g), op: *op });
           go(cfg, ops, len, after, cur, out);
